@@ -439,6 +439,14 @@ pub fn shape_sweep(rep: &mut Report, thorough: bool) {
         docs.push(json!({"f♭": v}));
         docs.push(json!({"a": v, "f♭": [{"_id": "e", "p": 0}]}));
     }
+    // the key "#" (constants::HASH_FIELD) in tracked and untracked positions, with short-hex, long and non-string values
+    for h in [json!("41"), json!("zz"), json!("0123456789abcdef0123456789abcdef0123456789abcdef0123456789abcdef"), json!(7), json!(null)] {
+        docs.push(json!({"f♭": [{"_id": "x", "#": h}]}));
+        docs.push(json!({"f♭": [{"_id": "x", "#": h, "p": 1}]}));
+        docs.push(json!({"f♭": {"#": h, "p": 1}}));
+        docs.push(json!({"#": h, "f♭": [{"_id": "x", "p": 1}]}));
+        docs.push(json!({"a": {"#": h, "p": 1}, "f♭": [{"_id": "x", "p": {"#": h}}]}));
+    }
     let evals = std::sync::atomic::AtomicU64::new(0);
     let classes: std::sync::Mutex<BTreeMap<String, u64>> = std::sync::Mutex::new(BTreeMap::new());
     let bad: std::sync::Mutex<Vec<(usize, String, Value)>> = std::sync::Mutex::new(vec![]);
